@@ -28,8 +28,9 @@
 (* Decoder side (mode = "dec", and "size" for longer frames on a single    *)
 (* schedule; the decoder design of CobsDec is instantiated as D):          *)
 (*   - SizeQuery(n): source = 0, sourcelen = n: must return at least the   *)
-(*     length of the message the reference decoder reads from the current  *)
-(*     frame when that frame ends within the next n unread bytes (SizeOK), *)
+(*     length decoding the next n unread bytes gives the message of the    *)
+(*     current frame: the whole message the reference decoder reads when   *)
+(*     the frame ends within them, else the part they settle (SizeOK),     *)
 (*     and change nothing,                                                 *)
 (*   - Reset: source = 0, sourcelen = 0: changes no data, clears the codec *)
 (*     context, is idempotent; honesty of later answers is demanded only   *)
@@ -290,11 +291,24 @@ ReadPos == fedn - (Len(reg) - curr)
 \* the bound the decoders compute for n remaining encoded bytes
 MaxDec(KK, n) == IF KK.cmd THEN n + Len(CmdHeader) ELSE IF KK.zpe THEN 2 * n ELSE n
 
-\* Tier 1: n more bytes of the stream end the current frame => the bound covers its message
+\* message bytes that are settled once the zero-free start b of a frame has been read: the data bytes seen, and the
+\* zeros of every block whose successor's code byte has been seen (what decoding exactly these bytes produces)
+RECURSIVE PartFrom(_, _, _)
+PartFrom(KK, b, i) ==      \* i: position of a code byte, i <= Len(b)
+  LET c    == b[i]
+      n    == DataLen(KK, c)
+      rest == Len(b) - i
+  IN IF rest <= n THEN rest
+     ELSE n + (IF IsPair(KK, c) THEN 2 ELSE IF c < KK.max THEN 1 ELSE 0) + PartFrom(KK, b, i + n + 1)
+PartLen(KK, b) == IF KK.cmd THEN Len(CmdHeader) + Len(b) ELSE IF Len(b) = 0 THEN 0 ELSE PartFrom(KK, b, 1)
+
+\* Tier 1: the bound covers what decoding the next n unread bytes makes of the current frame: its whole message
+\* when the frame ends within them, else the part of it those bytes settle (asked at any point inside a frame)
 SizeOK(KK, s, f, rp, n, isLost, bound) ==
   \/ isLost
   \/ LET v == D!Verdict(KK, s, f, rp + n) IN
-     v.st \in {"ok", "amb"} => bound >= Len(v.msg)
+     IF v.st = "open" THEN bound >= PartLen(KK, SubSeq(s, f + 1, rp + n))
+     ELSE v.st \in {"ok", "amb"} => bound >= Len(v.msg)
 
 SizeQuery(n) ==
   /\ ~lost /\ curr <= Len(reg) /\ n \in 1..(Len(stream) - ReadPos)
